@@ -200,7 +200,10 @@ func read(r io.Reader) (map[byte][]bucket, error) {
 	var h = map[byte][]bucket{}
 
 	var tag, n byte
-	var lastItemWasDelimiter bool
+	// Tags seen since the last delimiter. A repeated tag continues the value of the current
+	// list element (fragment); the first item of a tag after a delimiter starts the value of
+	// the next list element.
+	var seen = map[byte]bool{}
 	for {
 		if err := binary.Read(r, binary.LittleEndian, &tag); err != nil {
 			if err == io.EOF {
@@ -219,17 +222,20 @@ func read(r io.Reader) (map[byte][]bucket, error) {
 
 		if len(v) > 0 {
 			if l, ok := h[tag]; ok {
-				if lastItemWasDelimiter {
+				if !seen[tag] {
 					h[tag] = append(l, v)
 				} else {
-					h[tag] = []bucket{append(l[0], v...)}
+					l[len(l)-1] = append(l[len(l)-1], v...)
 				}
 			} else {
 				h[tag] = []bucket{v}
 			}
+			seen[tag] = true
 		}
 
-		lastItemWasDelimiter = tag == 0 && n == 0
+		if tag == 0 && n == 0 {
+			seen = map[byte]bool{}
+		}
 	}
 
 	return h, nil
